@@ -42,6 +42,11 @@ static volatile long g_seq = -1;
 static volatile long g_op = -1;
 static const char* volatile g_kind = "?";
 
+static void noteFailure(const std::string& what) {
+    printf("FAILING seq=%ld kind=%s op=%ld : %s\n", (long)g_seq, g_kind, (long)g_op, what.c_str());
+    fflush(stdout);
+}
+
 static void announce() {
     char b[128];
     int n = snprintf(b, sizeof b, "\nSEQ %ld kind=%s op=%ld\n", (long)g_seq, g_kind, (long)g_op);
@@ -80,7 +85,8 @@ struct Rng {
 };
 
 struct Fail { std::string what; explicit Fail(const std::string& w) : what(w) {} };
-#define CHECK(cond, msg) do { if (!(cond)) { std::ostringstream o_; o_ << msg; throw Fail(o_.str()); } } while (0)
+// a failed comparison is written at once (the containers of the sequence are still to be destroyed, and a damaged one may never get there)
+#define CHECK(cond, msg) do { if (!(cond)) { std::ostringstream o_; o_ << msg; noteFailure(o_.str()); throw Fail(o_.str()); } } while (0)
 
 static struct Counters { long seqs, ops, mismatches, rehash_sized, compactions, grow, reuse, imbalance; } g_c;
 
